@@ -11,14 +11,21 @@
      encoding, [g_shape] is the shape of the array as haptools holds it
      (samples, variants, planes).
    * 255 is the missing call (uint8 cast of cyvcf2's -1 / pgenlib's -9).
-   * the libraries are Section variables: [vload] = what cyvcf2 returns for a
-     GT that pysam wrote, [pload] = what pgenlib returns for a stored call.
-     Their contracts are stated in C07_Proofs; the concrete instances used to
-     evaluate [agree] ([vload_std], [pload_std]) are defined at the end and
-     shown to satisfy the contracts. *)
+   * the libraries are Section variables: [paccept] = does pgenlib's writer accept
+     a batch, [pload] = what pgenlib returns for a stored call, [vload] = what
+     cyvcf2 returns for a GT that pysam wrote, [hts] = what htslib yields when a
+     reader is iterated without a region / queried with a region, given the
+     file's format and index.  Their contracts are stated in C07_Proofs; the
+     concrete instances used to evaluate [agree] ([paccept_std], [pload_std],
+     [vload_std], [hts_std]) are defined at the end and shown to satisfy the
+     contracts.
+   * the text of the .psam / .pvar / .vcf files (sample names, IDs, contigs,
+     positions, alleles as characters) is modelled in C07_Files. *)
 From HV Require Import Prelude.
 
 Definition E_Value : Z := 1.
+Definition E_Attribute : Z := 5.
+Definition E_Assert : Z := 8.
 Definition E_Crash : Z := 11.
 Definition E_Runtime : Z := 17.
 
@@ -160,19 +167,6 @@ Record pfile := mkpf {
 Definition pgen_batches (legacy : bool) (c : nat) (g : geno) : list batch :=
   map (mk_batch legacy (planes g)) (chunks c (combine (g_variants g) (g_rows g))).
 
-Definition pgen_write (legacy : bool) (cw : option Z) (g : geno) : res pfile :=
-  let p := lenZ (g_variants g) in
-  if p =? 0 then Ok (mkpf (g_samples g) [] 0 [])    (* empty .pgen, no writer *)
-  else
-    let limit := max_allele_ct (g_variants g) in
-    let step := eff_chunk cw p in
-    if step <=? 0 then Err E_Runtime   (* range() step 0 inside the writer's with-block *)
-    else
-      let bs := pgen_batches legacy (Z.to_nat step) g in
-      if forallb (batch_ok limit) bs
-      then Ok (mkpf (g_samples g) (g_variants g) limit bs)
-      else Err E_Runtime.
-
 (* what the .pgen holds after the batches: per variant, per sample
    (code0, code1, phasepresent flag); all_phased batches store flag 1 *)
 Definition scall := (Z * Z * Z)%type.
@@ -199,12 +193,71 @@ Definition vcall := (option Z * option Z * bool)%type.   (* GT tuple and the pha
 Definition cast8 (x : Z) : Z := x mod 256.               (* .astype(np.uint8) *)
 Definition m9 (x : Z) : Z := if x =? -9 then -1 else x.  (* data[data == -9] = -1 *)
 
+(* ---- VCF/BCF files on disk ------------------------------------------------- *)
+
+Definition gt_of (x : Z) : option Z := if x =? 255 then None else Some x.
+
+Definition vcf_call (pl : Z) (c : call) : vcall :=
+  let '(a, b, p) := c in (gt_of a, gt_of b, if pl <? 3 then true else negb (p =? 0)).
+
+Notation vrecord := (variant * list vcall)%type (only parsing).
+
+(* the content of a VCF/BCF file: the samples of the header and the records *)
+Record vfile := mkvf { vf_samples : list Z; vf_recs : list vrecord }.
+
+(* how the content is stored, and which index lies beside it *)
+Inductive vfmt := F_vcf | F_vcfgz | F_bcf.       (* plain text, bgzip-compressed text, binary *)
+Inductive vidx := I_none | I_tbi | I_csi.
+Record vdisk := mkvd { vd_fmt : vfmt; vd_idx : vidx; vd_file : vfile }.
+
+Definition vfmt_eqb (a b : vfmt) : bool :=
+  match a, b with F_vcf, F_vcf | F_vcfgz, F_vcfgz | F_bcf, F_bcf => true | _, _ => false end.
+Definition is_indexed (d : vdisk) : bool := match vd_idx d with I_none => false | _ => true end.
+
+(* the combinations pysam.tabix_index can produce: no index for plain text, .tbi or
+   .csi beside a .vcf.gz, .csi beside a .bcf *)
+Definition disk_okb (d : vdisk) : bool :=
+  match vd_fmt d, vd_idx d with
+  | F_vcf, I_none | F_vcfgz, _ | F_bcf, I_none | F_bcf, I_csi => true
+  | _, _ => false
+  end.
+
+(* htslib (through cyvcf2) as seen by Genotypes._vcf_iter *)
+Record htslib := mkhts {
+  hts_iter : vdisk -> list vrecord;               (* for rec in VCF(path): no region *)
+  hts_none : vdisk -> list vrecord;               (* VCF(path)(None): what the pinned tree called *)
+  hts_region : vdisk -> Z -> res (list vrecord)   (* VCF(path)(contig) *)
+}.
+
 Section Libs.
+  (* pgenlib.PgenWriter: is the batch handed to append_alleles_batch /
+     append_partially_phased_batch accepted (first argument: allele_ct_limit) *)
+  Variable paccept : Z -> batch -> bool.
   (* pgenlib: stored call -> (allele0, allele1, phasepresent) as returned by
      read_alleles_and_phasepresent(_list) *)
   Variable pload : scall -> scall.
   (* cyvcf2: variant.genotype.array() row for a GT written by pysam *)
   Variable vload : vcall -> Z * Z * Z.
+  (* htslib: which records a reader yields *)
+  Variable hts : htslib.
+
+  (* GenotypesPLINK.write.  The .psam and .pvar are written first; without variants the
+     .pgen is an empty file and no writer is opened (whatever the number of samples);
+     variants without samples are refused (legacy = pinned tree: sample_ct = 0 is handed to
+     pgenlib, which crashes the interpreter) *)
+  Definition pgen_write (legacy : bool) (cw : option Z) (g : geno) : res pfile :=
+    let p := lenZ (g_variants g) in
+    if p =? 0 then Ok (mkpf (g_samples g) [] 0 [])    (* empty .pgen, no writer *)
+    else if lenZ (g_samples g) =? 0 then Err (if legacy then E_Crash else E_Value)
+    else
+      let limit := max_allele_ct (g_variants g) in
+      let step := eff_chunk cw p in
+      if step <=? 0 then Err E_Runtime   (* range() step 0 inside the writer's with-block *)
+      else
+        let bs := pgen_batches legacy (Z.to_nat step) g in
+        if forallb (paccept limit) bs
+        then Ok (mkpf (g_samples g) (g_variants g) limit bs)
+        else Err E_Runtime.
 
   Definition load_call (s : scall) : call :=
     let '(a, b, f) := pload s in (cast8 (m9 a), cast8 (m9 b), f).
@@ -226,14 +279,11 @@ Section Libs.
   Definition pgen_roundtrip_model (legacy : bool) (cw cr : option Z) (g : geno) : res geno :=
     bind (pgen_write legacy cw g) (pgen_read legacy cr).
 
+  (* what pgenlib.PgenReader.read_alleles_and_phasepresent returns for every variant of
+     the file, read directly (not through haptools) *)
+  Definition pgen_raw (pf : pfile) : list (list scall) := map (map pload) (stored pf).
+
   (* ---- VCF/BCF ---- *)
-
-  Definition gt_of (x : Z) : option Z := if x =? 255 then None else Some x.
-
-  Definition vcf_call (pl : Z) (c : call) : vcall :=
-    let '(a, b, p) := c in (gt_of a, gt_of b, if pl <? 3 then true else negb (p =? 0)).
-
-  Record vfile := mkvf { vf_samples : list Z; vf_recs : list (variant * list vcall) }.
 
   Definition vcf_write (g : geno) : vfile :=
     mkvf (g_samples g) (combine (g_variants g) (map (map (vcf_call (planes g))) (g_rows g))).
@@ -241,18 +291,30 @@ Section Libs.
   Definition vcf_load_call (c : vcall) : call :=
     let '(a, b, f) := vload c in (cast8 a, cast8 b, cast8 f).
 
-  (* Genotypes.read() with no restriction.  legacy = pinned tree with cyvcf2 >= 0.31:
-     vcf(None) yields nothing unless the file has an index. *)
-  Definition vcf_read (legacy indexed : bool) (vf : vfile) : geno :=
-    let recs := if legacy && negb indexed then [] else vf_recs vf in
-    let n := lenZ (vf_samples vf) in
-    let p := lenZ recs in
-    if (n =? 0) || (p =? 0)
-    then mkg (vf_samples vf) (map fst recs) [] [0; 0; 0]
-    else mkg (vf_samples vf) (map fst recs) (map (fun r => map vcf_load_call (snd r)) recs) [n; p; 3].
+  (* Genotypes._vcf_iter: "vcf if region is None else vcf(region)";
+     legacy = pinned tree: always vcf(region) *)
+  Definition vcf_records (legacy : bool) (region : option Z) (d : vdisk) : res (list vrecord) :=
+    match region with
+    | None => Ok (if legacy then hts_none hts d else hts_iter hts d)
+    | Some c => hts_region hts d c
+    end.
 
-  Definition vcf_roundtrip_model (legacy indexed : bool) (g : geno) : geno :=
-    vcf_read legacy indexed (vcf_write g).
+  (* Genotypes.read().  An array without entries is replaced by one of shape (0, 0, 0);
+     samples and variants are kept.  legacy0 = before the repair of the reader for files
+     without samples: variant.genotype is None there (AttributeError) *)
+  Definition vcf_build (legacy0 : bool) (samples : list Z) (recs : list vrecord) : res geno :=
+    let n := lenZ samples in
+    let p := lenZ recs in
+    if legacy0 && (n =? 0) && negb (p =? 0) then Err E_Attribute
+    else if (n =? 0) || (p =? 0)
+    then Ok (mkg samples (map fst recs) [] [0; 0; 0])
+    else Ok (mkg samples (map fst recs) (map (fun r => map vcf_load_call (snd r)) recs) [n; p; 3]).
+
+  Definition vcf_read (legacy legacy0 : bool) (region : option Z) (d : vdisk) : res geno :=
+    bind (vcf_records legacy region d) (vcf_build legacy0 (vf_samples (vd_file d))).
+
+  Definition vcf_roundtrip_model (legacy legacy0 : bool) (fmt : vfmt) (idx : vidx) (g : geno) : res geno :=
+    vcf_read legacy legacy0 None (mkvd fmt idx (vcf_write g)).
 End Libs.
 
 (* ---- the concrete library behaviour observed with pgenlib 0.94 / cyvcf2 0.34,
@@ -271,3 +333,17 @@ Definition pload_std (s : scall) : scall :=
 Definition oz (x : option Z) : Z := match x with Some v => v | None => -1 end.
 Definition vload_std (c : vcall) : Z * Z * Z :=
   let '(a, b, ph) := c in (oz a, oz b, if ph then 1 else 0).
+
+(* pgenlib 0.94 accepts exactly the batches that meet its stated precondition *)
+Definition paccept_std : Z -> batch -> bool := batch_ok.
+
+(* htslib 1.x through cyvcf2 0.31: iterating a reader yields every record whatever the
+   format and whether or not an index exists; VCF(path)(None) yields nothing without an
+   index; a region query without an index fails (AssertionError "error loading ... index"),
+   with an index it yields the records of the contig *)
+Definition hts_std : htslib :=
+  mkhts (fun d => vf_recs (vd_file d))
+        (fun d => if is_indexed d then vf_recs (vd_file d) else [])
+        (fun d c => if is_indexed d
+                    then Ok (filter (fun r : vrecord => v_chrom (fst r) =? c) (vf_recs (vd_file d)))
+                    else Err E_Assert).
